@@ -458,70 +458,7 @@ func runC10(p *core.Prog, r *core.Report) {
 		}
 	}
 
-	// whether an inline value was given is decided by having found the '=' — never by looking at the value: `-name=`
-	// gives the empty text (the zero value, an empty string), it does not turn into a switch or take the next token
-	for _, f := range c.ViewFns {
-		writes := false
-		for _, ref := range sx.FieldRefs([]*ssa.Function{f}, fieldByName(c.Flag, "ArgValue")) {
-			if fa, ok := ref.Instr.(*ssa.FieldAddr); ok {
-				for _, a := range sx.Accesses(fa) {
-					if a.Kind == "write" {
-						writes = true
-					}
-				}
-			}
-		}
-		if !writes {
-			continue
-		}
-		isValueText := func(v ssa.Value) bool {
-			for _, lf := range leaves(v) {
-				switch x := lf.(type) {
-				case *ssa.Slice:
-					if isStringT(x.X.Type()) && x.High == nil && x.Low != nil {
-						// the rest of a token after the '=' found at a computed position: token[i+1:]
-						if lo, isAdd := x.Low.(*ssa.BinOp); isAdd && lo.Op == token.ADD {
-							if k, isC := sx.ConstInt(lo.Y); isC && k == 1 {
-								return true
-							}
-						}
-					}
-				case *ssa.Extract:
-					if cc, ok := x.Tuple.(*ssa.Call); ok && sx.CalleeName(cc) == "strings.Cut" && x.Index == 1 {
-						return true
-					}
-				}
-			}
-			return false
-		}
-		var bad []string
-		sx.Instrs(f, func(in ssa.Instruction) {
-			b, ok := in.(*ssa.BinOp)
-			if !ok || (b.Op != token.EQL && b.Op != token.NEQ && b.Op != token.GTR && b.Op != token.LSS) || b.Referrers() == nil {
-				return
-			}
-			feedsIf := false
-			for _, u := range *b.Referrers() {
-				if _, isIf := u.(*ssa.If); isIf {
-					feedsIf = true
-				}
-			}
-			if !feedsIf {
-				return
-			}
-			for _, pr := range [][2]ssa.Value{{b.X, b.Y}, {b.Y, b.X}} {
-				if k, isC := sx.ConstString(pr[1]); isC && k == "" && isStringT(pr[0].Type()) && isValueText(pr[0]) {
-					bad = append(bad, "the value text is compared with \"\" at "+p.Pos(in.Pos()))
-				}
-				if k, isC := sx.ConstInt(pr[1]); isC && k == 0 {
-					if lc, isL := pr[0].(*ssa.Call); isL && isBuiltin(lc, "len") && isStringT(lc.Call.Args[0].Type()) && isValueText(lc.Call.Args[0]) {
-						bad = append(bad, "the length of the value text is tested at "+p.Pos(in.Pos()))
-					}
-				}
-			}
-		})
-		r.Check(len(bad) == 0, "C10-R6", "an inline value is recognised by its '=', not by its content ("+fnName(f)+")", p.FuncPos(f), "no test of the value text against the empty string", strings.Join(uniq(bad), "; ")+": an explicit empty value (`-name=`) is taken for \"no value\" — a bool flag becomes true, other flags swallow the next argument")
-	}
+	inlineValueRule(p, r, c, "C10-R6")
 
 	// ---- R6 / R7: what ends up in ArgValue
 	{
@@ -776,4 +713,75 @@ func flagMapField(fs *types.Named) *types.Var {
 		}
 	}
 	return found
+}
+
+// inlineValueRule: whether an inline value was given is decided by having found the '=' — never by looking at the
+// value: `-name=` gives the empty text (the zero value, an empty string), it does not turn into a switch or take the
+// next token. Checked in every function that records command-line text.
+func inlineValueRule(p *core.Prog, r *core.Report, c *cfgInfo, rule string) {
+	// whether an inline value was given is decided by having found the '=' — never by looking at the value: `-name=`
+	// gives the empty text (the zero value, an empty string), it does not turn into a switch or take the next token
+	for _, f := range c.ViewFns {
+		writes := false
+		for _, ref := range sx.FieldRefs([]*ssa.Function{f}, fieldByName(c.Flag, "ArgValue")) {
+			if fa, ok := ref.Instr.(*ssa.FieldAddr); ok {
+				for _, a := range sx.Accesses(fa) {
+					if a.Kind == "write" {
+						writes = true
+					}
+				}
+			}
+		}
+		if !writes {
+			continue
+		}
+		isValueText := func(v ssa.Value) bool {
+			for _, lf := range leaves(v) {
+				switch x := lf.(type) {
+				case *ssa.Slice:
+					if isStringT(x.X.Type()) && x.High == nil && x.Low != nil {
+						// the rest of a token after the '=' found at a computed position: token[i+1:]
+						if lo, isAdd := x.Low.(*ssa.BinOp); isAdd && lo.Op == token.ADD {
+							if k, isC := sx.ConstInt(lo.Y); isC && k == 1 {
+								return true
+							}
+						}
+					}
+				case *ssa.Extract:
+					if cc, ok := x.Tuple.(*ssa.Call); ok && sx.CalleeName(cc) == "strings.Cut" && x.Index == 1 {
+						return true
+					}
+				}
+			}
+			return false
+		}
+		var bad []string
+		sx.Instrs(f, func(in ssa.Instruction) {
+			b, ok := in.(*ssa.BinOp)
+			if !ok || (b.Op != token.EQL && b.Op != token.NEQ && b.Op != token.GTR && b.Op != token.LSS) || b.Referrers() == nil {
+				return
+			}
+			feedsIf := false
+			for _, u := range *b.Referrers() {
+				if _, isIf := u.(*ssa.If); isIf {
+					feedsIf = true
+				}
+			}
+			if !feedsIf {
+				return
+			}
+			for _, pr := range [][2]ssa.Value{{b.X, b.Y}, {b.Y, b.X}} {
+				if k, isC := sx.ConstString(pr[1]); isC && k == "" && isStringT(pr[0].Type()) && isValueText(pr[0]) {
+					bad = append(bad, "the value text is compared with \"\" at "+p.Pos(in.Pos()))
+				}
+				if k, isC := sx.ConstInt(pr[1]); isC && k == 0 {
+					if lc, isL := pr[0].(*ssa.Call); isL && isBuiltin(lc, "len") && isStringT(lc.Call.Args[0].Type()) && isValueText(lc.Call.Args[0]) {
+						bad = append(bad, "the length of the value text is tested at "+p.Pos(in.Pos()))
+					}
+				}
+			}
+		})
+		r.Check(len(bad) == 0, rule, "an inline value is recognised by its '=', not by its content ("+fnName(f)+")", p.FuncPos(f), "no test of the value text against the empty string", strings.Join(uniq(bad), "; ")+": an explicit empty value (`-name=`) is taken for \"no value\" — a bool flag becomes true, other flags swallow the next argument")
+	}
+
 }
